@@ -1,13 +1,14 @@
 import GdVerif.Run.Reader
 import GdVerif.Run.Valve
 import GdVerif.Run.GenValve
+import GdVerif.Run.Small
 /-
   gdmodel: the model behind a line protocol.
     gdmodel run        : reads `<id> <entry> <args…>` lines on stdin, prints `<id> <outcome>`
 -/
 open Gd Gd.Run
 
-def allEntries : List (String × (List String → String)) := readerEntries ++ valveEntries
+def allEntries : List (String × (List String → String)) := readerEntries ++ valveEntries ++ smallEntries
 
 def runLine (line : String) : String :=
   match line.trimAscii.toString.splitOn " " with
@@ -35,7 +36,7 @@ def main (args : List String) : IO UInt32 := do
     | some seed, some n =>
       let lines := match suite with
         | "valve" => genValve seed n
-        | _ => []
+        | s => (smallGen s seed n).getD []
       for l in lines do IO.println l
       return 0
     | _, _ => return 2
